@@ -155,6 +155,10 @@ class C09(Check):
                 for svd in SVDS:
                     yield dict(base, alg="tr", rank=list(rk) + [rk[0]], mode=mode, svd=svd)
 
+        # ---- HOOI with the stopping test switched off (tol=0 / None): core and factors must still belong together
+        for rk in itertools.product(*[range(1, n + 2) for n in shape]):
+            yield dict(base, alg="tucker", rank=list(rk), svd="truncated_svd", iters=2, tol=0)
+            yield dict(base, alg="tucker", rank=list(rk), svd="truncated_svd", iters=1, tol=None)
         # ---- int64-dtype input for the integer-valued family (truncated_svd; full rank space of TT and TR, HOSVD+HOOI for Tucker)
         if fam == "integer":
             for rk in R.tt_rank_space(shape):
@@ -274,7 +278,8 @@ class C09(Check):
         cls = f"{svd}:{case['fam']}"
         ctx.count("calls:tucker")
         try:
-            res = tucker(self._x(case, T), rank=self._rank_arg(case, rank), svd=svd, n_iter_max=case["iters"], random_state=0)
+            res = tucker(self._x(case, T), rank=self._rank_arg(case, rank), svd=svd, n_iter_max=case["iters"], random_state=0,
+                         **({"tol": case["tol"]} if "tol" in case else {}))
             core, factors = res
             core = np.asarray(core)
             factors = [np.asarray(f) for f in factors]
